@@ -141,7 +141,7 @@ func (s *scheduler) pickNext(cur *task) *task {
 		}
 		return cur
 	}
-	if len(en) == 1 {
+	if len(en) == 1 || s.i.cfg.Sched == "first" {
 		return en[0]
 	}
 	var label string
